@@ -204,6 +204,11 @@ def step (toks : List String) : String :=
     fmtRes (slurmCheck (hexList (kvOf rest "ids"))
       ⟨(kvOf rest "sqrc").toNat!, unhex (kvOf rest "sq")⟩
       (acctReply (hexList (kvOf rest "ids")) ⟨(kvOf rest "sarc").toNat!, unhex (kvOf rest "sa")⟩))
+  | "sched.submit" :: rest =>
+    (match submitResult (kvOf rest "rc").toNat! (unhex (kvOf rest "out")) with
+     | .error _ => "RAISE:AttributeError"
+     | .ok (c, some j) => s!"{c.name} {hex j}"
+     | .ok (c, none) => s!"{c.name} -")
   | "sched.lsf" :: rest =>
     fmtRes (lsfCheck (hexList (kvOf rest "ids")) ⟨(kvOf rest "rc").toNat!, unhex (kvOf rest "out")⟩)
   | "sched.flux" :: rest =>
